@@ -31,6 +31,13 @@ FINGERPRINTS = [
     (D + "cache_query.py", ["CacheQueryService"]),
     (D + "linter.py", ["DRYRule"]),
     (D + "file_analyzer.py", ["FileAnalyzer"]),
+    (D + "inline_ignore.py", ["InlineIgnoreParser"]),
+    (D + "block_filter.py", ["KeywordArgumentFilter", "create_default_registry"]),
+    (D + "violation_generator.py", ["_filter_ignored", "_is_ignored", "_filter_inline_ignored", "_filter_shared_ignored"]),
+    ("src/linter_config/ignore.py", ["should_ignore_violation", "_is_ignored_in_content", "_check_block_ignore", "_process_block_line",
+                                     "_check_prev_line_ignore", "_check_current_line_ignore", "_has_file_ignore_in_content"]),
+    ("src/linter_config/directive_markers.py", ["has_ignore_directive_marker", "has_line_ignore_marker", "has_ignore_next_line_marker",
+                                                "has_ignore_start_marker", "has_ignore_end_marker"]),
 ]
 
 
@@ -533,6 +540,102 @@ def config_keys():
             + defn("dry_default_min_lines", "nat", str(d)) + defn("dry_default_min_occurrences", "nat", "2"))
 
 
+def suppression():
+    """inline_ignore.py ranges, the range-overlap test, the end line used by _filter_inline_ignored, the dry.ignore
+    substring test, the three filters of generate_violations and HEADER_SCAN_LINES"""
+    c = find_class(parse(D + "inline_ignore.py"), "InlineIgnoreParser")
+    f = find_func(c, "_parse_ignore_directive")
+    src = [ast.unparse(x) for x in _body(f)]
+    m1 = re.fullmatch(r"if re\.search\('#\\\\s\*dry:\\\\s\*ignore-block', line\):\n    start = line_num \+ (\d+)\n    end = min\(line_num \+ (\d+), total_lines\)\n    return \(start, end\)", src[0])
+    m2 = re.fullmatch(r"if re\.search\('#\\\\s\*dry:\\\\s\*ignore-next', line\):\n    return \(line_num \+ (\d+), line_num \+ (\d+)\)", src[1])
+    if not m1 or not m2 or m2.group(1) != m2.group(2) or src[2:] != ["return None"]:
+        raise Unsupported(f"_parse_ignore_directive changed: {src}")
+    f = find_func(c, "_extract_ignore_ranges")
+    if "for i, line in enumerate(lines, start=1) if (ignore_range := self._parse_ignore_directive(line, i, len(lines)))" not in ast.unparse(f):
+        raise Unsupported("_extract_ignore_ranges changed")
+    f = find_func(c, "parse_file")
+    if [ast.unparse(x) for x in _body(f)][:2] != ["lines = content.split('\\n')", "ranges = self._extract_ignore_ranges(lines)"]:
+        raise Unsupported("InlineIgnoreParser.parse_file changed")
+    f = find_func(c, "_check_range_overlap")
+    ret = _body(f)[0]
+    g = ret.value.args[0] if isinstance(ret, ast.Return) and isinstance(ret.value, ast.Call) and ast.unparse(ret.value.func) == "any" else None
+    if not isinstance(g, ast.GeneratorExp) or ast.unparse(g.generators[0].target) != "(ign_start, ign_end)" or ast.unparse(g.generators[0].iter) != "ranges":
+        raise Unsupported("_check_range_overlap changed")
+    env = Env(names={"line": "line", "end_line": "end_line", "ign_start": "ign_start", "ign_end": "ign_end"})
+    out = f"Definition dry_range_overlap (line end_line ign_start ign_end : nat) : bool := {tr(g.elt, env)}.\n"
+    f = find_func(c, "should_ignore")
+    if "return self._check_range_overlap(line, end_line, ranges)" not in ast.unparse(f):
+        raise Unsupported("InlineIgnoreParser.should_ignore changed")
+    vg = find_class(parse(D + "violation_generator.py"), "ViolationGenerator")
+    f = find_func(vg, "_filter_inline_ignored")
+    u = ast.unparse(f)
+    m3 = re.search(r"end_line = (.+)\n", u)
+    if not m3 or "start_line = violation.line or 0" not in u or "line_count = self._extract_line_count(violation.message)" not in u \
+            or "if not inline_ignore.should_ignore(violation.file_path, start_line, end_line):" not in u:
+        raise Unsupported("_filter_inline_ignored changed")
+    env = Env(names={"start_line": "start", "line_count": "count"})
+    out += f"Definition dry_inline_end (start count : nat) : nat := {tr(ast.parse(m3.group(1), mode='eval').body, env)}.\n"
+    f = find_func(vg, "_is_ignored")
+    if [ast.unparse(x) for x in _body(f)] != ["path_str = str(Path(file_path))", "return any((pattern in path_str for pattern in ignore_patterns))"]:
+        raise Unsupported("_is_ignored changed")
+    f = find_func(vg, "generate_violations")
+    want = ["raw_violations = self._collect_violations(storage, rule_id, config)",
+            "deduplicated = self._deduplicator.deduplicate_violations(raw_violations)",
+            "pattern_filtered = self._filter_ignored(deduplicated, config.ignore_patterns)",
+            "inline_filtered = self._filter_inline_ignored(pattern_filtered, ignore_ctx.inline_ignore)",
+            "if ignore_ctx.shared_parser and ignore_ctx.file_contents:\n    return self._filter_shared_ignored(inline_filtered, ignore_ctx.shared_parser, ignore_ctx.file_contents)",
+            "return inline_filtered"]
+    if [ast.unparse(x) for x in _body(f)] != want:
+        raise Unsupported("generate_violations changed")
+    hs = const_value(find_assign(parse("src/core/constants.py"), "HEADER_SCAN_LINES"))
+    return (out + defn("dry_ignore_block_off", "nat", m1.group(1)) + defn("dry_ignore_block_len", "nat", m1.group(2))
+            + defn("dry_ignore_next_off", "nat", m2.group(1)) + defn("dry_header_scan_lines", "nat", str(hs))
+            + defn("dry_ignore_block_re", "string", coq_string(r"#\s*dry:\s*ignore-block")) + defn("dry_ignore_next_re", "string", coq_string(r"#\s*dry:\s*ignore-next")))
+
+
+def kwarg_filter():
+    """KeywordArgumentFilter: threshold (as a fraction), the pattern text the hand matcher was written for, the ratio
+    comparison, the multi-line containment test"""
+    from fractions import Fraction
+    m = parse(D + "block_filter.py")
+    thr = const_value(find_assign(m, "DEFAULT_KEYWORD_ARG_THRESHOLD"))
+    fr = Fraction(str(thr))
+    if not 0 < fr <= 1:
+        raise Unsupported(f"threshold {thr}")
+    c = find_class(m, "KeywordArgumentFilter")
+    init = find_func(c, "__init__")
+    if [ast.unparse(d) for d in init.args.defaults] != ["DEFAULT_KEYWORD_ARG_THRESHOLD"] or "self.threshold = threshold" not in ast.unparse(init):
+        raise Unsupported("KeywordArgumentFilter.__init__ changed")
+    pats = [n for n in ast.walk(init) if isinstance(n, ast.Call) and ast.unparse(n.func) == "re.compile"]
+    if len(pats) != 1 or not isinstance(pats[0].args[0], ast.Constant) or len(pats[0].args) != 1:
+        raise Unsupported("kwarg pattern")
+    pat = pats[0].args[0].value
+    if pat != "^\\s*\\w+\\s*=\\s*.+,?\\s*$":
+        raise Unsupported(f"kwarg pattern changed: {pat!r} (Model/DryFilter.v kwarg_line was written for the old one)")
+    f = find_func(c, "should_filter")
+    body = _body(f)
+    src = [ast.unparse(x) for x in body]
+    want = ["lines = file_content.split('\\n')[block.start_line - 1:block.end_line]", "if not lines:\n    return False",
+            "kwarg_lines = sum((1 for line in lines if self._kwarg_pattern.match(line)))", "ratio = kwarg_lines / len(lines)"]
+    if src[:4] != want or len(src) != 6 or src[5] != "return False" or not isinstance(body[4], ast.If) \
+            or ast.unparse(body[4].body[0]) != "return self._is_inside_function_call(block, file_content)" \
+            or ast.unparse(body[4].test.left) != "ratio" or ast.unparse(body[4].test.comparators[0]) != "self.threshold":
+        raise Unsupported(f"KeywordArgumentFilter.should_filter changed: {src}")
+    op = CMP[type(body[4].test.ops[0])]
+    f = find_func(c, "_is_inside_function_call")
+    if "return any((isinstance(node, ast.Call) and self._check_multiline_containment(node, block) for node in ast.walk(tree)))" not in ast.unparse(f):
+        raise Unsupported("_is_inside_function_call changed")
+    f = find_func(c, "_check_multiline_containment")
+    stmts = [x for x in _body(f) if ast.unparse(x) != "if not KeywordArgumentFilter._has_valid_line_info(node):\n    return False"]
+    env = Env(attrs={"node.lineno": "a", "node.end_lineno": "b", "block.start_line": "s", "block.end_line": "e"})
+    out = f"Definition dry_call_contains (a b s e : nat) : bool := {tr_block(stmts, env)}.\n"
+    reg = find_func(m, "create_default_registry")
+    if "registry.register(KeywordArgumentFilter(threshold=DEFAULT_KEYWORD_ARG_THRESHOLD))" not in ast.unparse(reg):
+        raise Unsupported("create_default_registry changed")
+    return (out + defn("dry_kwarg_cmp", "cmp", op) + defn("dry_kwarg_num", "nat", str(fr.numerator)) + defn("dry_kwarg_den", "nat", str(fr.denominator))
+            + defn("dry_kwarg_pattern", "string", coq_string(pat)))
+
+
 ITEMS = [
     ("import_tables", import_tables),
     ("comment_markers", comment_markers),
@@ -549,4 +652,6 @@ ITEMS = [
     ("violation_fields", violation_fields),
     ("rule_identity", rule_identity),
     ("config_keys", config_keys),
+    ("suppression", suppression),
+    ("kwarg_filter", kwarg_filter),
 ]
